@@ -47,7 +47,7 @@ struct Fx {
 }
 
 fn fixture() -> Result<Fx, String> {
-    let dir = crate::scratch_dir().map_err(|e| e.to_string())?;
+    let dir = vcommon::scratch_dir();
     let dev: Dev = Device::mock_from_seed([7u8; 32]);
     let storage = Storage::open(dir.path().join("storage"), git::UserInfo { alias: Alias::new("verif"), key: *dev.public_key() }).map_err(|e| e.to_string())?;
     let mk = |name: &str| -> Result<(Repository, [u8; 20]), String> {
@@ -254,6 +254,22 @@ fn refs_from_json(v: &Value) -> Truth {
         .unwrap_or_default()
 }
 
+/// Stable failure class of a mutation label (one signature per kind of thing that was changed,
+/// not per mutation operator).
+fn class(label: &str) -> &'static str {
+    if label == "honest" {
+        "nothing-changed"
+    } else if label.starts_with("key-") {
+        "key-changed"
+    } else if label.starts_with("signature-") {
+        "signature-changed"
+    } else if label.starts_with("oid") || label.starts_with("ref-") || label.starts_with("root-") {
+        "refs-changed"
+    } else {
+        "refs-blob-changed"
+    }
+}
+
 #[derive(Clone, Copy, PartialEq)]
 enum Expect {
     /// honest triple: acceptance expected (rejection = inconclusive)
@@ -293,7 +309,7 @@ fn judge_struct(rep: &mut Reporter, repo: &Repository, r: &Truth, key: &PublicKe
             rep.count(&format!("accepted:{label}"));
             let accepted = from_refs(&v.refs);
             if !own_verify(&v.id, &own_canonical(&accepted), &v.signature) {
-                rep.violation(&format!("C20/verify/accepted-but-signature-does-not-cover-accepted-refs/{label}"), wit());
+                rep.violation(&format!("C20/verify/accepted-but-signature-does-not-cover-accepted-refs/{}", class(label)), wit());
             }
             if accepted != *r || v.id != *key || v.signature != *sig {
                 rep.violation("C20/verify/verified-value-differs-from-what-was-checked", wit());
@@ -346,7 +362,7 @@ fn judge_blob(rep: &mut Reporter, repo: &Repository, blob: &[u8], truth: &Truth,
             rep.count("blob-mutation.accepted");
             let accepted = from_refs(&v.refs);
             if !own_verify(&v.id, &own_canonical(&accepted), &v.signature) {
-                let sig_name = if same { "C20/verify/accepted-but-signature-does-not-cover-accepted-refs/blob" } else { "C20/verify/mutated-refs-blob-accepted-with-different-refs" };
+                let sig_name = if same { "C20/verify/accepted-but-signature-does-not-cover-accepted-refs/refs-blob-respelled" } else { "C20/verify/mutated-refs-blob-accepted-with-different-refs" };
                 rep.violation(sig_name, wit());
             } else if !same {
                 // own verification passes for a different ref set with the old signature: impossible
@@ -391,7 +407,7 @@ fn judge_git(rep: &mut Reporter, repo: &Repository, blob: &[u8], sigbytes: &[u8]
             rep.count(&format!("git.accepted:{label}"));
             let accepted = from_refs(&v.refs);
             if v.id != *key || v.signature.as_ref() != sigbytes || !own_verify(&v.id, &own_canonical(&accepted), &v.signature) {
-                rep.violation(&format!("C20/load-at/accepted-but-signature-does-not-cover-accepted-refs/{label}"), wit());
+                rep.violation(&format!("C20/load-at/accepted-but-signature-does-not-cover-accepted-refs/{}", class(label)), wit());
             }
         }
     }
